@@ -64,6 +64,35 @@ def handle : Handler
               outList (fun o => r o (outBool (contains mimeNeg self o))) offers])
       | _ => some badArgs
     | _, _, _ => some badArgs
+  | "api", [attr, hdrs, offers, aliases, default, idx] =>
+    -- a Request attribute and the whole Accept API on it:
+    -- items|best_match(offers, default)|best|values|to_header|index per offer|self[offer] per offer|self[idx]|html,xhtml,json
+    let a : Option AcceptAttr :=
+      match attr with
+      | "accept_mimetypes" => some .mimetypes
+      | "accept_charsets" => some .charsets
+      | "accept_encodings" => some .encodings
+      | "accept_languages" => some .languages
+      | _ => none
+    match a, listArg pairArg hdrs, listArg unhexStr offers, listArg pairArg aliases,
+        optArg unhexStr default, natArg idx with
+    | some a, some hdrs, some offers, some aliases, some default, some idx =>
+      some (match requestAccept aliases a hdrs with
+        | .error e => e
+        | .ok self =>
+          let c := a.spec.2.2
+          let N := c.neg aliases
+          "|".intercalate [outItems self,
+            outOpt hexStr (clsBestMatch aliases c self offers default),
+            outOpt hexStr (best self),
+            outList hexStr (values self),
+            (match toHeader self with | some h => hexStr h | none => "UNSUPPORTED"),
+            outList (fun o => match index N self o with | .ok i => toString i | .error e => e) offers,
+            outList (fun o => outQ (getItemStr N self o)) offers,
+            outOpt (fun (v, q) => hexStr v ++ "=" ++ outQ q) (getItemIdx self idx),
+            if c == .mime then outBool (acceptHtml self) ++ "," ++ outBool (acceptXhtml self) ++ "," ++
+              outBool (acceptJson self) else "~"])
+    | _, _, _, _, _, _ => some badArgs
   | "parseq", [s] =>
     match unhexStr s with
     | some s => some (outOpt outQ (parseQ s))
